@@ -225,6 +225,41 @@ Section PatternHalf.
     flat_map (fun r => r ts src) rules ++ pat_spec (iter_chunks ts) src.
 End PatternHalf.
 
+(* ---------- linting/long_sentences.rs (as repaired by 1bab09f) ---------- *)
+(* TokenKind::is_whitespace: Space(_) | Newline(_) *)
+Definition is_ws_kind (k : kind) : bool := match k with KSpace | KNewline => true | _ => false end.
+Definition is_word_kind (k : kind) : bool := match k with KWord => true | _ => false end.
+(* sentence.iter_words().count() *)
+Definition count_words (s : list tok) : nat := length (filter (fun t => is_word_kind (tkind t)) s).
+(* sentence.iter().position(|t| !t.kind.is_whitespace()).unwrap_or(0) *)
+Fixpoint first_visible_opt (s : list tok) : option nat :=
+  match s with
+  | [] => None
+  | t :: r => if negb (is_ws_kind (tkind t)) then Some 0
+              else match first_visible_opt r with Some i => Some (S i) | None => None end
+  end.
+Definition first_visible (s : list tok) : nat := match first_visible_opt s with Some i => i | None => 0 end.
+Definition long_sentence_limit : nat := 40.
+(* one sentence: `sentence[first..].span().unwrap()` when it has more than 40 words
+   (the slice is a checked operation, `unwrap` panics on None, Span::new inside span() is checked) *)
+Definition long_sentence (s : list tok) : res (list span) :=
+  if long_sentence_limit <? count_words s then
+    do sl <- slice_chk s (first_visible s) (length s);
+    do h <- hull_chk sl;
+    match h with Some sp => Ok [sp] | None => Panic PUnwrap end
+  else Ok [].
+(* the code before 1bab09f: the hull of the WHOLE sentence, leading whitespace included *)
+Definition long_sentence_old (s : list tok) : res (list span) :=
+  if long_sentence_limit <? count_words s then
+    do h <- hull_chk s;
+    match h with Some sp => Ok [sp] | None => Panic PUnwrap end
+  else Ok [].
+(* LongSentences::lint: for sentence in document.iter_sentences() *)
+Definition long_sentences (ts : list tok) : res (list span) :=
+  do ss <- iter_by_chk is_sentence_terminator ts;
+  do ls <- map_res long_sentence ss;
+  Ok (concat ls).
+
 (* ---------- executable instances for the correspondence (extracted) ---------- *)
 Definition kind_of_code (c : nat) : kind :=
   match c with
@@ -271,5 +306,12 @@ Definition run_group (cch : cache) (l : list (nat * (nat * nat))) (src : text)
   : option (list (nat * (nat * nat)) * cache) :=
   match lint_group_chk word_chunk_fn [schema_rule is_sentence_terminator sentence_g0] cch (toks_of l) src with
   | Ok (ls, c') => Some (map (fun x => (lstart x, (lend x, lid x))) ls, c')
+  | Panic _ => None
+  end.
+
+(* LongSentences on a token list given as (class code, start, end): the spans of its lints, None = panic *)
+Definition run_long (l : list (nat * (nat * nat))) : option (list (nat * nat)) :=
+  match long_sentences (toks_of l) with
+  | Ok ls => Some (map (fun sp => (sstart sp, send sp)) ls)
   | Panic _ => None
   end.
